@@ -57,8 +57,6 @@ def gen_cases(tier, seed):
 
 def mk_spec(r, medium, j, big=False):
     L = r.choice(G.TAPE_LEN[1:] if medium == "cas" else G.DISK_LEN) if not big else r.choice([20000, 40000, 65535, 9 * 2304 - 20])
-    if medium == "cas" and L == 0:
-        L = 1
     s = G.gen_file(r, "tape" if medium == "cas" else "disk", length=L, maxname=8)
     s["name"] = ("%c%d" % (r.choice("ABxyQ"), j) + "".join(r.choice(G.NAMECH) for _ in range(r.randrange(0, 5))))[:8]
     if medium == "dsk" and s["type"] != 2 and s["dtype"] == 0xFF and L == 0:
